@@ -13,8 +13,8 @@ import (
 type Op struct {
 	Kind string `json:"op"` // send | cancel | closerecv | pause | resume | await
 	Msg  *Msg   `json:"msg,omitempty"`
-	D    int64  `json:"d,omitempty"` // advance: seconds of simulated time
-	N    int    `json:"n,omitempty"` // await: block until N replies (see Client.IsReply) have been received
+	D    int64  `json:"d,omitempty"`   // advance: seconds of simulated time
+	N    int    `json:"n,omitempty"`   // await: block until N replies (see Client.IsReply) have been received
 	Key  string `json:"key,omitempty"` // awaitkey: block until N messages with this key (see Client.KeyOf) have been received
 }
 
@@ -29,8 +29,8 @@ type Got struct {
 type Sent struct {
 	Idx      int // index in the script
 	Msg      mocrelay.ClientMsg
-	Invoke   int64 // stamp when the attempt started
-	Accepted int64 // stamp when the system took the message (0: never)
+	Invoke   int64     // stamp when the attempt started
+	Accepted int64     // stamp when the system took the message (0: never)
 	InvokeT  time.Time // simulated time of Invoke
 }
 
@@ -53,7 +53,7 @@ type Client struct {
 	keyCnt map[string]int
 	// OnSend, if set, is called by the writer actor right before script op i
 	// (a send) is attempted.
-	OnSend func(i int)
+	OnSend  func(i int)
 	replies int
 
 	dyn     chan Op // ops injected by the driver after the static script (see Do)
@@ -92,17 +92,24 @@ func (sim *Sim) NewClient(parent context.Context, name string, script []Op) *Cli
 // Serve starts the handler session and the two actors.
 func (c *Client) Serve(h mocrelay.Handler) {
 	sim := c.Sim
-	sim.Go(c.Name+".serve", func() {
-		c.ServeGoid = verifsim.GoroutineID()
-		err := h.ServeNostr(c.Ctx, c.Send, c.Recv)
-		c.ReturnErr = err
-		c.ReturnStamp = sim.Stamp()
-		c.Returned.Store(true)
-	})
+	sim.Go(c.Name+".serve", func() { c.serveMain(h) })
 	sim.Go(c.Name+".rd", c.reader)
 	sim.Go(c.Name+".wr", c.writer)
 }
 
+// The actors' own bookkeeping is synchronised by the scheduler only, which a
+// -race build hides from the detector: these functions are not instrumented.
+//
+//go:norace
+func (c *Client) serveMain(h mocrelay.Handler) {
+	c.ServeGoid = verifsim.GoroutineID()
+	err := h.ServeNostr(c.Ctx, c.Send, c.Recv)
+	c.ReturnErr = err
+	c.ReturnStamp = c.Sim.Stamp()
+	c.Returned.Store(true)
+}
+
+//go:norace
 func (c *Client) reader() {
 	defer c.readerExited.Store(true)
 	for {
@@ -141,6 +148,7 @@ func (c *Client) reader() {
 	}
 }
 
+//go:norace
 func (c *Client) writer() {
 	for i, op := range c.Script {
 		verifsim.Yield(c.Name + ".wr")
@@ -166,8 +174,11 @@ func (c *Client) writer() {
 
 // Do hands one more op to the writer actor (driver only); the op is executed
 // during the following Drive.
+//
+//go:norace
 func (c *Client) Do(op Op) { c.dyn <- op }
 
+//go:norace
 func (c *Client) exec(i int, op Op) (goOn bool) {
 	c.Sim.Logf("%s op[%d] %s", c.Name, i, op.Kind)
 	switch op.Kind {
@@ -233,9 +244,13 @@ func (c *Client) exec(i int, op Op) (goOn bool) {
 }
 
 // Paused reports whether the reader is currently stalled.
+//
+//go:norace
 func (c *Client) Paused() bool { return c.paused.Load() }
 
 // Resume re-enables the reader.
+//
+//go:norace
 func (c *Client) Resume() {
 	if c.paused.Swap(false) {
 		select {
@@ -246,6 +261,8 @@ func (c *Client) Resume() {
 }
 
 // Stop ends both actors (they exit at their next blocking point).
+//
+//go:norace
 func (c *Client) Stop() {
 	select {
 	case <-c.stop:
@@ -256,4 +273,6 @@ func (c *Client) Stop() {
 
 // GotSnapshot returns a copy of what was received so far. Only call at
 // quiescence.
+//
+//go:norace
 func (c *Client) GotSnapshot() []Got { return append([]Got(nil), c.Got...) }
